@@ -22,7 +22,7 @@ KINDS = ['add', 'add', 'add', 'add_from', 'path', 'star', 'cycle', 'node', 'reje
 
 
 def strategy(tier):
-    return gen.tiered(tier, max_ops=12, min_ops=2, kinds=KINDS, removal=(True, True, False), attrs='handles')
+    return gen.tiered(tier, max_ops=12, min_ops=2, kinds=KINDS, removal=(True, True, False), attrs='handles', shifts=True)
 
 
 def exhaustive(tier):
@@ -78,7 +78,7 @@ def run_case(case, rec):
                 rec.check('C07.observe', False, 'observe() raised %r before op %d' % (before, i))
                 return False
             known_inst = d.M.mentioned_instants()
-            for (u, v, t, e) in elements(op, d.nodes):
+            for (u, v, t, e) in elements(op, d.nodes, d.shift):
                 if u not in d.M.nodes or v not in d.M.nodes or (t is not None and t not in known_inst):
                     introduces_new = True
         r = d.step(op)
@@ -108,10 +108,10 @@ def run_case(case, rec):
                 rec.classify('bulk_failed_at_%d' % r['applied'])
             check_state(rec, 'C07.bulk_prefix' if not single else 'C07.state_after_reject', d.G, d.M, d.nodes, ctx)
             if introduces_new:
-                for (u, v, t, e) in elements(op, d.nodes):
+                for (u, v, t, e) in elements(op, d.nodes, d.shift):
                     pending[d.M.key(u, v)] = True
         else:
-            for (u, v, t, e) in elements(op, d.nodes):
+            for (u, v, t, e) in elements(op, d.nodes, d.shift):
                 if pending.get(d.M.key(u, v)):
                     nontrivial = True
     if d.M.removal:
